@@ -7,6 +7,9 @@ CONSTANTS
   MaxT = 1
   Phases <- compress_q_Phases
   ShapeSet <- compress_q_Shapes
+  Signers = {"s1", "s2"}
+  Recipients = {"r1", "r2"}
+  Policies <- compress_q_Policies
   CfgName = "compress_q"
 INIT Init
 NEXT Next
